@@ -112,6 +112,7 @@ struct Sched {
   uint64_t seed = 1;
   uint32_t param = 8;          // sticky: 1/param switch probability; starve: class bitmask; pct: depth
   uint32_t spurious = 0;       // 1/spurious chance per decision of a spurious cond wake-up (0 = never)
+  uint32_t preempt = 0;        // "preempt" variant only: mean number of instrumented memory accesses between preemption points inside unsynchronised code (0 = none)
   bool explicit_ = false;      // true: ignore policy, use devs over the default policy
   std::vector<std::pair<uint32_t, uint32_t>> devs;   // (choice index, value) deviations from default
 };
@@ -174,6 +175,7 @@ struct Result {
   std::string describe() const;
 };
 
+void preempt_access();           // called by the instrumentation hooks of the "preempt" variant
 void init();                     // once per process
 Result run(const Plan &plan);    // one simulated lbzip2 process
 const char *variant();           // "plain", "ndebug", "asan", "tsan"
